@@ -17,6 +17,9 @@ type Slicer struct {
 	InRepo   func(*ssa.Function) bool
 	CG       *callgraph.Graph // optional: used to bind parameters reached without a descent
 	MaxDepth int
+	// BindRoot also binds the parameters of the function the slice starts in to
+	// the arguments of its in-repo call sites (role checks across a helper boundary).
+	BindRoot bool
 
 	seen     map[ssa.Value]bool
 	bindings map[*ssa.Parameter][]ssa.Value
@@ -133,7 +136,7 @@ func (s *Slicer) visit(v ssa.Value, depth int) {
 			}
 			return
 		}
-		if fn == s.root || s.CG == nil {
+		if (fn == s.root && !s.BindRoot) || s.CG == nil {
 			return
 		}
 		// reached without a descent (e.g. via a closure): bind from call graph
@@ -213,10 +216,10 @@ func (s *Slicer) visit(v ssa.Value, depth int) {
 	case *ssa.Field:
 		s.visit(x.X, depth)
 	case *ssa.FieldAddr:
-		s.visit(x.X, depth)
+		s.visitBase(x.X)
 		s.memory(x, depth)
 	case *ssa.IndexAddr:
-		s.visit(x.X, depth)
+		s.visitBase(x.X)
 		s.visit(x.Index, depth)
 		s.memory(x, depth)
 	case *ssa.Index:
@@ -268,6 +271,66 @@ func StripIface(v ssa.Value) ssa.Value {
 	}
 }
 
+// visitBase marks the object a field/element is selected from without
+// following the object's own provenance: "derives from field F of O" must not
+// pull in everything else that was ever stored into O.
+func (s *Slicer) visitBase(v ssa.Value) {
+	for depth := 0; v != nil && depth < 16; depth++ {
+		if _, isAlloc := v.(*ssa.Alloc); !isAlloc {
+			s.seen[v] = true
+		}
+		switch x := v.(type) {
+		case *ssa.Alloc:
+			// a local object: whole-object stores carry its identity (spilled parameters)
+			if x.Parent() != nil {
+				for _, st := range s.index(x.Parent()).stores {
+					if st.Addr == ssa.Value(x) && !s.seen[st.Val] {
+						s.visitBase(st.Val)
+					}
+				}
+			}
+			return
+		case *ssa.Parameter:
+			for _, b := range s.bindings[x] {
+				if !s.seen[b] {
+					s.visitBase(b)
+				} else if a, ok := b.(*ssa.Alloc); ok {
+					_ = a
+				}
+			}
+			return
+		case *ssa.FieldAddr:
+			v = x.X
+		case *ssa.IndexAddr:
+			v = x.X
+		case *ssa.Field:
+			v = x.X
+		case *ssa.Index:
+			v = x.X
+		case *ssa.UnOp:
+			v = x.X
+		case *ssa.ChangeType:
+			v = x.X
+		case *ssa.Convert:
+			v = x.X
+		case *ssa.Slice:
+			v = x.X
+		case *ssa.Extract:
+			s.seen[x.Tuple] = true
+			return
+		case *ssa.Phi:
+			for _, e := range x.Edges {
+				if !s.seen[e] {
+					s.visitBase(e)
+				}
+			}
+			return
+		default:
+			return
+		}
+	}
+}
+
 func topOf(fn *ssa.Function) *ssa.Function {
 	for fn.Parent() != nil {
 		fn = fn.Parent()
@@ -302,6 +365,9 @@ func (s *Slicer) memory(addr ssa.Value, depth int) {
 	for a, calls := range ix.argUsers {
 		if a == addr || containsAddr(a, addr) || containsAddr(addr, a) || pathAlias(a, addr) {
 			for _, c := range calls {
+				if _, isSlice := a.Type().Underlying().(*types.Slice); isSlice && !s.readsIntoSlice(c) {
+					continue // a slice argument is only written by read-into functions
+				}
 				s.objectCall(c, a, depth)
 			}
 		}
@@ -555,6 +621,35 @@ func HasGlobal(sl map[ssa.Value]bool, id string) bool {
 		if g, ok := v.(*ssa.Global); ok && g.Pkg != nil && g.Pkg.Pkg.Path()+"."+g.Name() == id {
 			return true
 		}
+	}
+	return false
+}
+
+// readsIntoSlice: the callee fills a []byte argument (Read-style functions).
+// Unknown static repo callees are descended into by objectCall anyway.
+func (s *Slicer) readsIntoSlice(c ssa.CallInstruction) bool {
+	id := CallID(c)
+	switch id {
+	case "io.ReadFull", "io.ReadAtLeast", "builtin.copy", "crypto/rand.Read", "encoding/hex.Decode", "encoding/binary.Read",
+		"encoding/binary.LittleEndian.PutUint16", "encoding/binary.LittleEndian.PutUint32", "encoding/binary.LittleEndian.PutUint64",
+		"encoding/binary.BigEndian.PutUint16", "encoding/binary.BigEndian.PutUint32", "encoding/binary.BigEndian.PutUint64":
+		return true
+	}
+	if cc := c.Common(); cc.IsInvoke() {
+		switch cc.Method.Name() {
+		case "Read", "ReadAt", "PutUint16", "PutUint32", "PutUint64":
+			return true
+		}
+		return false
+	}
+	if o := CalleeObject(c); o != nil {
+		switch o.Name() {
+		case "Read", "ReadAt", "ReadFull":
+			return true
+		}
+	}
+	if callee := Callee(c); callee != nil && callee.Blocks != nil && s.InRepo != nil && s.InRepo(callee) {
+		return true // analysed by descent
 	}
 	return false
 }
